@@ -455,7 +455,7 @@ func (w *World) computeModSets() {
 						d[k] = true
 					}
 				case *ssa.MapUpdate:
-					d["map"] = true
+					d["$s:map"] = true
 				case ssa.CallInstruction:
 					c := x.Common()
 					if c.IsInvoke() {
@@ -481,7 +481,7 @@ func (w *World) computeModSets() {
 								}
 							}
 						case "delete":
-							d["map"] = true
+							d["$s:map"] = true
 						}
 					case *ssa.Function:
 						if cv.Blocks != nil && cv.Pkg != nil && isLibPkg(cv.Pkg.Pkg.Path()) {
